@@ -1,5 +1,6 @@
 (* C07 - extended semantics: vacuity clauses, then the strict definition over feasible worlds and finite layers. *)
 From InfOCF Require Import Core Tol Form Model Spec Exec ThmOps ThmTop ThmPExt.
+From InfOCF Require Import ThmPCoin.
 From InfOCFProps Require Import Ex.
 From InfOCF Require Import PyLib TieSolver TieCons TieInf TieZ TieP.
 From InfOCFGen Require Import SrcCond SrcCons SrcInf SrcZ SrcP.
@@ -40,6 +41,13 @@ Print Assumptions C07_total.
 Theorem C07_coincide_z : forall n D q P, D <> [] -> part_strict n D = Some P -> infer n SysZ true D q = infer n SysZ false D q.
 Proof. exact ext_strict_coincide_z. Qed.
 Print Assumptions C07_coincide_z.
+Theorem C07_coincide_p : forall n D q P, D <> [] -> NoDup (map ckey D) -> part_strict n D = Some P ->
+  infer n SysP true D q = infer n SysP false D q.
+Proof. exact ext_strict_coincide_p. Qed.
+Print Assumptions C07_coincide_p.
+Example birds_p_coincide : map (infer 4 SysP true birds) [q_fp; q_nfp; q_wp] = map (infer 4 SysP false birds) [q_fp; q_nfp; q_wp]
+  /\ map (infer 4 SysP false birds) [q_fp; q_nfp; q_wp] = [Ans false; Ans true; Ans false].
+Proof. vm_compute. split; reflexivity. Qed.
 Theorem C07_coincide_w : forall n D q P, D <> [] -> part_strict n D = Some P -> infer n SysW true D q = infer n SysW false D q.
 Proof. exact ext_strict_coincide_w. Qed.
 Print Assumptions C07_coincide_w.
